@@ -1,7 +1,7 @@
 SPECIFICATION Spec
 CONSTANTS NU = 2  NG = 3  NC = 0  MaxOps = 4  Spurious = FALSE
   Amts <- A2  Ops <- OpsA  KickSets <- KS
-  ClearAtomic = TRUE  LogAtomic = TRUE  KickConsume = TRUE  OfflineOnVeto = TRUE  CloseOnLateVeto = TRUE  OnlineFloor = TRUE
+  ClearAtomic = TRUE  LogAtomic = TRUE  KickConsume = TRUE  OfflineOnVeto = TRUE  CloseOnLateVeto = TRUE  AuthAtomic = TRUE  OnlineFloor = TRUE
 INVARIANT NoViolation
 VIEW View
 CHECK_DEADLOCK FALSE
